@@ -43,8 +43,14 @@ def variants(rng, tag):
     other_nodup = other.split("def worker_two")[0]
     third_ignored = "# thailint: ignore-file[dry]\n" + third
     app_nomode = app.replace('("fast", "slow", "medium")', '("a",)')
+    app_line_ignored = app.replace('    if mode in ("fast", "slow", "medium"):\n        return mode',
+                                   '    if mode in ("fast", "slow", "medium"):  # thailint: ignore[stringly-typed]\n        return mode')
+    app_magic_ignored = app.replace("total += item * 37", "total += item * 37  # thailint: ignore[magic-numbers]")
+    tool_sh = "#!/bin/bash\necho 31337\n"
+    tool_py = "#!/usr/bin/env python3\ndef tool_main(a):\n    print(a)\n    return a * 31337\n"
     return {
-        "src/app.py": [app, app_nomode, app + "\n\ndef extra(a):\n    return a * 31337\n"],
+        "tool": [tool_sh, tool_py, "plain text 31337\n", tool_py.replace("31337", "31338")],
+        "src/app.py": [app, app_nomode, app + "\n\ndef extra(a):\n    return a * 31337\n", app_line_ignored, app_magic_ignored],
         "src/other.py": [other, other_nodup, nodup],
         "src/third.py": [third, third_ignored, nodup],
         "src/web.ts": [web, web.replace("console.log", "logger.info")],
@@ -94,6 +100,19 @@ def gen_history(rng, tag, nops):
             ops.append({"op": "write", "file": f, "content": content})
             state[f] = content
     ops.append({"op": "lint", "target": "."})
+    return init, ops
+
+
+def pinned_history(rng, tag):
+    """Deterministic history: suppressions added/removed and an extension-less script changing kind between calls."""
+    pool = variants(rng, tag)
+    init = {k: v[0] for k, v in pool.items() if k != "pkg/more.py"}
+    ops = [{"op": "lint", "target": "."}]
+    for f, idxs in (("src/app.py", (3, 0, 4, 0)), ("tool", (1, 0, 3, 2, 1))):
+        for i in idxs:
+            ops.append({"op": "write", "file": f, "content": pool[f][i]})
+            ops.append({"op": "lint", "target": "."})
+            ops.append({"op": "lint", "target": f})
     return init, ops
 
 
@@ -354,6 +373,9 @@ def run(ctx):
     for i in range(ctx.size(6, 60)):
         init, ops = gen_history(rng, "h%d" % i, rng.randint(12, 30) if ctx.quick else rng.randint(20, 60))
         hjobs.append({"init": init, "ops": ops, "config": CFG_TMP if i % 3 == 2 else CFG_MEM, "api": "linter" if i % 2 == 0 else "orchestrator", "id": "hist%d" % i})
+    for api in ("linter", "orchestrator"):
+        init, ops = pinned_history(rng, "hp")
+        hjobs.append({"init": init, "ops": ops, "config": CFG_MEM, "api": api, "id": "hist-pinned-" + api})
     houts = runner.pmap(history_case, hjobs, timeout=900)
     spec_jobs, spec_meta = [], []
     for job, o in zip(hjobs, houts):
